@@ -107,6 +107,9 @@ pub struct Tables {
     /// denominations whose marker account lists required attributes (a marker-level
     /// feature that does not change the marker's type)
     pub marker_required_attrs: std::collections::BTreeSet<String>,
+    /// markers answered with a status other than active (4 = cancelled, 2 = finalized): the
+    /// status does not change a marker's type
+    pub marker_status: std::collections::BTreeMap<String, i32>,
 }
 
 impl Tables {
@@ -166,7 +169,7 @@ impl<'a> Querier for TableQuerier<'a> {
                         base_account: None,
                         manager: String::new(),
                         access_control: vec![],
-                        status: 3,
+                        status: self.t.marker_status.get(&req.id).copied().unwrap_or(3),
                         denom: req.id.clone(),
                         supply: "1000000000".into(),
                         marker_type,
